@@ -20,6 +20,20 @@ def sh(cmd, cwd=None, env=ENV):
     return p.returncode, p.stdout
 
 
+def record_sites(out, who):
+    """Accumulates the rule source positions a check reported (line "sites: {...}") in rulelive/SITES.json."""
+    path = os.path.join(VERIF, "rulelive", "SITES.json")
+    acc = json.load(open(path)) if os.path.exists(path) else {}
+    for l in out.split("\n"):
+        if l.startswith("sites: "):
+            for k, v in json.loads(l[len("sites: "):]).items():
+                e = acc.setdefault(k, dict(count=0, by=[]))
+                e["count"] += v
+                if who not in e["by"] and len(e["by"]) < 8:
+                    e["by"].append(who)
+    json.dump(acc, open(path, "w"), indent=1, sort_keys=True)
+
+
 def main():
     pre = sys.argv[1:]
     ids = sorted(d for d in os.listdir(os.path.join(VERIF, "seeded")) if os.path.isdir(os.path.join(VERIF, "seeded", d)))
@@ -48,6 +62,7 @@ def main():
                 t0 = time.time()
                 rc, out = sh(["./check", cid, "quick"], cwd=VERIF, env=dict(ENV, VERIF_SEED=os.environ.get("VERIF_SEED", "1")))
                 sigs = [l[len("violation: "):] for l in out.split("\n") if l.startswith("violation:")]
+                record_sites(out, sid)
                 detail[cid] = dict(exit=rc, wall_s=round(time.time() - t0, 1), signatures=sigs[:4])
                 if rc == 1:
                     caught = cid
